@@ -683,11 +683,40 @@ func (c *c8ctx) assignStmt(l []ast.Stmt, i int, x *ast.AssignStmt) string {
 			}
 			return "CEff " + coqstr(txt) + " (" + eff + ")"
 		case fn == "make":
-			if c.text(call.Args[0]) != "[]*E" || len(call.Args) != 2 {
+			// make([]*E, n): n elements; make([]*E, 0, min(n, K)): no element, capacity bounded by the literal K
+			// (a negative capacity panics like a negative length)
+			if c.text(call.Args[0]) != "[]*E" || (len(call.Args) != 2 && len(call.Args) != 3) {
 				c.fail(x, "make %s", c.text(call))
+			}
+			if len(call.Args) == 3 {
+				mn, ok := call.Args[2].(*ast.CallExpr)
+				if c.text(call.Args[1]) != "0" || !ok || c.text(mn.Fun) != "min" || len(mn.Args) != 2 {
+					c.fail(x, "make %s", c.text(call))
+				}
+				k, ok := mn.Args[1].(*ast.BasicLit)
+				if !ok || k.Kind != token.INT {
+					c.fail(x, "make %s: capacity bound is not a literal", c.text(call))
+				}
+				n := c.ex(mn.Args[0])
+				return c.cset(txt, joinGuards(append(n.guards, c8g{"(0 <=? Z.min " + n.s + " " + k.Value + ")%Z", "pMake"}), "POk "+c.set("made", "σ", "0%Z")))
 			}
 			n := c.ex(call.Args[1])
 			return c.cset(txt, joinGuards(append(n.guards, c8g{"(0 <=? " + n.s + ")%Z", "pMake"}), "POk "+c.set("made", "σ", n.s)))
+		case fn == "append" && len(names) == 1 && names[0] == "values":
+			// values = append(values, &reg.values[id]): the index into reg.values is the only guard
+			if len(call.Args) != 2 || c.text(call.Args[0]) != "values" {
+				c.fail(x, "append %s", c.text(call))
+			}
+			rhs, ok := call.Args[1].(*ast.UnaryExpr)
+			if !ok || rhs.Op != token.AND {
+				c.fail(x, "append %s", c.text(call))
+			}
+			rix, ok := rhs.X.(*ast.IndexExpr)
+			if !ok || c.text(rix.X) != "reg.values" {
+				c.fail(x, "append %s", c.text(call))
+			}
+			id := c.ex(rix.Index)
+			return c.cset(txt, joinGuards([]c8g{{"((0 <=? " + id.s + ")%Z && (" + id.s + " <? " + c.get("lenvalues") + ")%Z)", "pIndex"}}, "POk σ"))
 		case fn == "bytes.NewReader":
 			return c.noop(x)
 		}
@@ -1091,6 +1120,7 @@ func genC08(repo string) (string, error) {
 				return found
 			})
 		genC08sites(repo, &out)
+		genC08alloc(repo, &out)
 	}()
 	return out.String(), err
 }
@@ -1883,4 +1913,651 @@ func sortStrings(a []string) {
 			a[j], a[j-1] = a[j-1], a[j]
 		}
 	}
+}
+
+// ---------------------------------------------------------------- phase 7: allocation census
+//
+// genC08alloc lists, for every function of the directories below, every allocation whose size is an
+// expression: make(T, n[, c]) (T not a map / chan without size), reflect.MakeSlice(t, n, c), x.Grow(n),
+// and every append inside a loop whose trip count is an expression.  For each row:
+//   - the ORIGIN of the size: OPeer when the size expression mentions a variable that was read from the
+//     peer earlier in the function (x.ReadFrom(..) with x the receiver, &x or (*T)(&x) handed to a
+//     ReadFrom / Scan call), or a variable assigned from such a variable; OParam when it mentions a
+//     parameter of the function (and no peer variable); OLocal otherwise (constants, len / cap of a
+//     value that exists);
+//   - the BOUND: the test on the size variable that dominates the allocation, if any:
+//       BConst: an `if v > K {return/...}` (K a constant expression), BAvail: the same against len(..) /
+//       x.Len() / cap(..) (bytes or elements present), BCase: the allocation sits in a `case` clause of
+//       a switch on the variable with literal labels, BMin: every peer variable of the size expression occurs under a min(..) with an operand that mentions no
+//       peer variable (min(n, K); i + min(n-i, i): at most double what has been read),
+//       BLocal: the same against an expression over values that were not read from the peer in this
+//       function (fields of the receiver, e.g. 1<<l.bits),
+//       BRead: (append rows) a ReadFrom / Scan call with an error return precedes the append inside the
+//       loop body: one element per successful read, BLower: only a lower bound (v < 0) is tested,
+//       BNone.
+// AST only; shapes of make / for that cannot be classified are errors.
+
+var c8allocDirs = []string{"level", "level/component", "registry", "chat/sign", "yggdrasil/user", "bot", "bot/basic", "bot/msg",
+	"bot/playerlist", "bot/screen", "bot/world", "server", "server/auth", "server/command"}
+
+type c8alloc struct {
+	t     *c8sites
+	fd    *ast.FuncDecl
+	org   map[string]int // variable -> 0 local, 1 param, 2 peer
+	src   map[string]string // variable -> the variable it was computed from (conversion, + and * with literals)
+	rows  *[]c8arow
+	site  string
+	k     int
+	outer []ast.Node // enclosing statements, outermost first
+}
+
+type c8arow struct{ site, kind, text, size, origin, bound, lower string }
+
+func (a *c8alloc) idents(e ast.Node, f func(string)) {
+	ast.Inspect(e, func(n ast.Node) bool {
+		switch x := n.(type) {
+		case *ast.SelectorExpr:
+			// x.f: only the root identifier counts (a field of a peer-read struct is peer data)
+			a.idents(x.X, f)
+			return false
+		case *ast.CallExpr:
+			if id, ok := x.Fun.(*ast.Ident); ok && (id.Name == "len" || id.Name == "cap") {
+				return false // the size of a value that exists
+			}
+			for _, arg := range x.Args {
+				a.idents(arg, f)
+			}
+			if s, ok := x.Fun.(*ast.SelectorExpr); ok {
+				a.idents(s.X, f)
+			}
+			return false
+		case *ast.Ident:
+			f(x.Name)
+		}
+		return true
+	})
+}
+
+func (a *c8alloc) origin(e ast.Node) int {
+	o := 0
+	a.idents(e, func(n string) {
+		if v, ok := a.org[n]; ok && v > o {
+			o = v
+		}
+	})
+	return o
+}
+
+// the variables a read call fills: the receiver of x.ReadFrom(..), every &x / (*T)(&x) among the
+// arguments and inside composite literals of the receiver (pk.Tuple{&x, ...}.ReadFrom(r))
+func (a *c8alloc) markReads(c *ast.CallExpr) {
+	sel, ok := c.Fun.(*ast.SelectorExpr)
+	if !ok {
+		return
+	}
+	switch sel.Sel.Name {
+	case "ReadFrom", "Scan", "ReadTagsFrom", "ReadField", "Unmarshal", "Decode":
+	default:
+		return
+	}
+	mark := func(e ast.Expr) {
+		for {
+			switch x := e.(type) {
+			case *ast.ParenExpr:
+				e = x.X
+				continue
+			case *ast.SelectorExpr:
+				e = x.X
+				continue
+			case *ast.IndexExpr:
+				e = x.X
+				continue
+			case *ast.StarExpr:
+				e = x.X
+				continue
+			case *ast.Ident:
+				if x.Name != "_" {
+					a.org[x.Name] = 2
+				}
+			}
+			return
+		}
+	}
+	if sel.Sel.Name == "ReadFrom" {
+		if _, isLit := sel.X.(*ast.CompositeLit); !isLit {
+			mark(sel.X)
+		}
+	}
+	var nodes []ast.Node
+	nodes = append(nodes, sel.X)
+	for _, arg := range c.Args {
+		nodes = append(nodes, arg)
+	}
+	for _, n := range nodes {
+		ast.Inspect(n, func(n ast.Node) bool {
+			if u, ok := n.(*ast.UnaryExpr); ok && u.Op == token.AND {
+				mark(u.X)
+			}
+			return true
+		})
+	}
+}
+
+func c8terminates(b *ast.BlockStmt) bool {
+	if b == nil || len(b.List) == 0 {
+		return false
+	}
+	switch x := b.List[len(b.List)-1].(type) {
+	case *ast.ReturnStmt:
+		return true
+	case *ast.BranchStmt:
+		return x.Tok == token.BREAK || x.Tok == token.CONTINUE
+	case *ast.ExprStmt:
+		if c, ok := x.X.(*ast.CallExpr); ok {
+			if id, ok := c.Fun.(*ast.Ident); ok && id.Name == "panic" {
+				return true
+			}
+		}
+	}
+	return false
+}
+
+func c8strip(e ast.Expr) ast.Expr {
+	for {
+		switch x := e.(type) {
+		case *ast.ParenExpr:
+			e = x.X
+		case *ast.CallExpr: // conversions int(v), int64(v), uint(v)
+			if id, ok := x.Fun.(*ast.Ident); ok && len(x.Args) == 1 {
+				switch id.Name {
+				case "int", "int32", "int64", "uint", "uint32", "uint64":
+					e = x.Args[0]
+					continue
+				}
+			}
+			return e
+		default:
+			return e
+		}
+	}
+}
+
+func (a *c8alloc) isConstExpr(e ast.Expr) bool {
+	ok := true
+	ast.Inspect(e, func(n ast.Node) bool {
+		switch x := n.(type) {
+		case *ast.Ident:
+			if _, local := a.org[x.Name]; local {
+				ok = false
+			}
+		case *ast.CallExpr:
+			ok = false
+		}
+		return ok
+	})
+	return ok
+}
+
+func (a *c8alloc) isAvail(e ast.Expr) bool {
+	s := a.t.text(e)
+	return strings.Contains(s, "len(") || strings.Contains(s, ".Len()") || strings.Contains(s, "cap(") || strings.Contains(s, "Remaining")
+}
+
+// atomic comparisons known to hold: the conjuncts of c when it holds, the negated disjuncts when it does not
+type c8fact struct {
+	v     string // variable on the left (conversions stripped)
+	op    token.Token
+	other ast.Expr
+	text  string
+}
+
+func (a *c8alloc) facts(c ast.Expr, holds bool, src ast.Expr, out *[]c8fact) {
+	switch x := c.(type) {
+	case *ast.ParenExpr:
+		a.facts(x.X, holds, src, out)
+		return
+	case *ast.UnaryExpr:
+		if x.Op == token.NOT {
+			a.facts(x.X, !holds, src, out)
+		}
+		return
+	case *ast.BinaryExpr:
+		if (x.Op == token.LAND && holds) || (x.Op == token.LOR && !holds) {
+			a.facts(x.X, holds, src, out)
+			a.facts(x.Y, holds, src, out)
+			return
+		}
+		op := x.Op
+		if !holds {
+			switch op {
+			case token.LSS:
+				op = token.GEQ
+			case token.LEQ:
+				op = token.GTR
+			case token.GTR:
+				op = token.LEQ
+			case token.GEQ:
+				op = token.LSS
+			default:
+				return
+			}
+		}
+		flip := map[token.Token]token.Token{token.LSS: token.GTR, token.LEQ: token.GEQ, token.GTR: token.LSS, token.GEQ: token.LEQ}
+		if _, cmp := flip[op]; !cmp {
+			return
+		}
+		txt := a.t.text(src)
+		if !holds {
+			txt = "not (" + txt + ")"
+		}
+		if id, ok := c8strip(x.X).(*ast.Ident); ok {
+			*out = append(*out, c8fact{id.Name, op, x.Y, txt})
+		}
+		if id, ok := c8strip(x.Y).(*ast.Ident); ok {
+			*out = append(*out, c8fact{id.Name, flip[op], x.X, txt})
+		}
+	}
+}
+
+// the comparisons that hold at position pos: negated conditions of the terminating ifs that precede it in an
+// enclosing block, conditions of the enclosing ifs (negated in the else branch)
+func (a *c8alloc) factsAt(pos token.Pos) []c8fact {
+	var fs []c8fact
+	for _, o := range a.outer {
+		var list []ast.Stmt
+		switch x := o.(type) {
+		case *ast.BlockStmt:
+			list = x.List
+		case *ast.CaseClause:
+			list = x.Body
+		case *ast.IfStmt:
+			if x.Body.Pos() <= pos && pos < x.Body.End() {
+				a.facts(x.Cond, true, x.Cond, &fs)
+			} else if x.Else != nil && x.Else.Pos() <= pos && pos < x.Else.End() {
+				a.facts(x.Cond, false, x.Cond, &fs)
+			}
+			continue
+		default:
+			continue
+		}
+		for _, s := range list {
+			if s.End() > pos {
+				break
+			}
+			if is, ok := s.(*ast.IfStmt); ok && is.Else == nil && is.Init == nil && c8terminates(is.Body) {
+				a.facts(is.Cond, false, is.Cond, &fs)
+			}
+		}
+	}
+	return fs
+}
+
+// v and the variables it was computed from by conversions, + and * with constants
+func (a *c8alloc) roots(v string) []string {
+	r := []string{v}
+	for i := 0; i < 8; i++ {
+		u, ok := a.src[r[len(r)-1]]
+		if !ok {
+			break
+		}
+		r = append(r, u)
+	}
+	return r
+}
+
+func (a *c8alloc) monotoneOf(e ast.Expr) string {
+	switch x := c8strip(e).(type) {
+	case *ast.Ident:
+		if _, ok := a.org[x.Name]; ok {
+			return x.Name
+		}
+	case *ast.BinaryExpr:
+		if x.Op == token.ADD || x.Op == token.MUL {
+			if _, lit := x.Y.(*ast.BasicLit); lit {
+				return a.monotoneOf(x.X)
+			}
+			if _, lit := x.X.(*ast.BasicLit); lit {
+				return a.monotoneOf(x.Y)
+			}
+		}
+	}
+	return ""
+}
+
+// every peer variable of e occurs under a min(..) one operand of which mentions no peer variable
+// (sums and products of such expressions included): min(int(Len), K), i + min(int(Len)-i, i)
+func (a *c8alloc) minBounded(e ast.Expr) bool {
+	if a.origin(e) < 2 {
+		return true
+	}
+	switch x := c8strip(e).(type) {
+	case *ast.BinaryExpr:
+		if x.Op == token.ADD || x.Op == token.MUL {
+			return a.minBounded(x.X) && a.minBounded(x.Y)
+		}
+	case *ast.CallExpr:
+		if id, ok := x.Fun.(*ast.Ident); ok && id.Name == "min" {
+			for _, arg := range x.Args {
+				if a.minBounded(arg) {
+					return true
+				}
+			}
+		}
+	}
+	return false
+}
+
+// (upper bound, lower bound text) on the peer variables of size expression e at position pos
+func (a *c8alloc) boundOf(e ast.Expr, pos token.Pos) (string, string) {
+	var vars []string
+	a.idents(e, func(n string) {
+		if a.org[n] >= 1 {
+			vars = append(vars, n)
+		}
+	})
+	fs := a.factsAt(pos)
+	upper, lower := "", ""
+	for _, v := range vars {
+		for _, r := range a.roots(v) {
+			for _, f := range fs {
+				if f.v != r {
+					continue
+				}
+				switch f.op {
+				case token.LSS, token.LEQ:
+					if upper == "" && a.isAvail(f.other) {
+						upper = "BAvail " + coqstr(f.text)
+					} else if upper == "" && a.isConstExpr(f.other) {
+						upper = "BConst " + coqstr(f.text)
+					} else if upper == "" && a.origin(f.other) == 0 {
+						upper = "BLocal " + coqstr(f.text)
+					}
+				case token.GTR, token.GEQ:
+					if lower == "" && a.isConstExpr(f.other) {
+						lower = f.text
+					}
+				}
+			}
+			// the allocation sits in a clause of a switch on r with constant labels
+			for _, o := range a.outer {
+				x, ok := o.(*ast.SwitchStmt)
+				if !ok || x.Tag == nil {
+					continue
+				}
+				if id, ok := c8strip(x.Tag).(*ast.Ident); !ok || id.Name != r {
+					continue
+				}
+				for _, cc := range x.Body.List {
+					cl := cc.(*ast.CaseClause)
+					if cl.Pos() <= pos && pos < cl.End() && cl.List != nil {
+						lit := true
+						var ls []string
+						for _, l := range cl.List {
+							if !a.isConstExpr(l) {
+								lit = false
+							}
+							ls = append(ls, a.t.text(l))
+						}
+						if lit && upper == "" {
+							t := "switch " + a.t.text(x.Tag) + " case " + strings.Join(ls, ", ")
+							upper, lower = "BCase "+coqstr(t), t
+						}
+					}
+				}
+			}
+		}
+	}
+	if upper == "" && a.minBounded(e) {
+		upper = "BMin " + coqstr(a.t.text(e))
+	}
+	if len(vars) > 1 && upper != "" {
+		// a bound on one of several peer variables does not bound an expression over all of them
+		a.t.fail(e, "allocation size %s mentions several peer variables; cannot classify its bound", a.t.text(e))
+	}
+	if upper == "" {
+		upper = "BNone"
+	}
+	return upper, lower
+}
+
+func (a *c8alloc) row(kind string, at ast.Node, size ast.Expr, bound string) {
+	a.k++
+	o := a.origin(size)
+	lower := ""
+	if bound == "" {
+		bound = "BNone"
+		if o >= 1 {
+			bound, lower = a.boundOf(size, at.Pos())
+		}
+	}
+	*a.rows = append(*a.rows, c8arow{fmt.Sprintf("%s#%d", a.site, a.k), kind, a.t.text(at), a.t.text(size), []string{"OLocal", "OParam", "OPeer"}[o], bound, lower})
+}
+
+// loops: trip count expression of a for / range statement, nil when it is not an expression over variables
+func (a *c8alloc) tripOf(n ast.Node) ast.Expr {
+	switch x := n.(type) {
+	case *ast.ForStmt:
+		if b, ok := x.Cond.(*ast.BinaryExpr); ok && (b.Op == token.LSS || b.Op == token.LEQ) {
+			return b.Y
+		}
+		if b, ok := x.Cond.(*ast.BinaryExpr); ok && (b.Op == token.GTR || b.Op == token.GEQ) {
+			return b.X
+		}
+	case *ast.RangeStmt:
+		return x.X
+	}
+	return nil
+}
+
+func (a *c8alloc) walk(n ast.Node) {
+	if n == nil {
+		return
+	}
+	switch x := n.(type) {
+	case *ast.FuncLit:
+		// a closure: same variables
+		a.walk(x.Body)
+		return
+	case *ast.AssignStmt:
+		for _, r := range x.Rhs {
+			a.walk(r)
+		}
+		// taint: v := f(peer)
+		o := 0
+		for _, r := range x.Rhs {
+			if v := a.origin(r); v > o {
+				o = v
+			}
+		}
+		for _, l := range x.Lhs {
+			if id, ok := l.(*ast.Ident); ok && id.Name != "_" {
+				if cur, ok := a.org[id.Name]; x.Tok == token.DEFINE || !ok || o > cur {
+					a.org[id.Name] = o
+				}
+				delete(a.src, id.Name)
+				if len(x.Lhs) == len(x.Rhs) && (x.Tok == token.DEFINE || x.Tok == token.ASSIGN) {
+					for i := range x.Lhs {
+						if x.Lhs[i] == l {
+							if u := a.monotoneOf(x.Rhs[i]); u != "" && u != id.Name {
+								a.src[id.Name] = u
+							}
+						}
+					}
+				}
+			}
+		}
+		return
+	case *ast.DeclStmt:
+		if g, ok := x.Decl.(*ast.GenDecl); ok && g.Tok == token.VAR {
+			for _, sp := range g.Specs {
+				vs := sp.(*ast.ValueSpec)
+				o := 0
+				for _, v := range vs.Values {
+					a.walk(v)
+					if w := a.origin(v); w > o {
+						o = w
+					}
+				}
+				for _, nm := range vs.Names {
+					a.org[nm.Name] = o
+				}
+			}
+		}
+		return
+	case *ast.CallExpr:
+		for _, arg := range x.Args {
+			a.walk(arg)
+		}
+		if s, ok := x.Fun.(*ast.SelectorExpr); ok {
+			a.walk(s.X)
+		} else if fl, ok := x.Fun.(*ast.FuncLit); ok {
+			a.walk(fl)
+		}
+		a.markReads(x)
+		switch f := x.Fun.(type) {
+		case *ast.Ident:
+			if f.Name == "make" {
+				switch x.Args[0].(type) {
+				case *ast.MapType, *ast.ChanType:
+					if len(x.Args) < 2 {
+						return
+					}
+				}
+				if len(x.Args) < 2 {
+					return
+				}
+				size := x.Args[len(x.Args)-1]
+				if len(x.Args) == 3 && a.origin(x.Args[1]) > a.origin(x.Args[2]) {
+					size = x.Args[1]
+				}
+				if _, lit := size.(*ast.BasicLit); lit {
+					return
+				}
+				a.row("make", x, size, "")
+			}
+			if f.Name == "append" {
+				// innermost enclosing loop
+				for i := len(a.outer) - 1; i >= 0; i-- {
+					trip := a.tripOf(a.outer[i])
+					if trip == nil {
+						if _, isFor := a.outer[i].(*ast.ForStmt); isFor {
+							a.row("append", x, &ast.Ident{Name: "unbounded_loop", NamePos: x.Pos()}, "BNone")
+							break
+						}
+						continue
+					}
+					bound := ""
+					if a.origin(trip) == 2 {
+						bound = "BNone"
+						var body *ast.BlockStmt
+						switch l := a.outer[i].(type) {
+						case *ast.ForStmt:
+							body = l.Body
+						case *ast.RangeStmt:
+							body = l.Body
+						}
+						ast.Inspect(body, func(n ast.Node) bool {
+							if c, ok := n.(*ast.CallExpr); ok && c.End() <= x.Pos() {
+								if s, ok := c.Fun.(*ast.SelectorExpr); ok && (s.Sel.Name == "ReadFrom" || s.Sel.Name == "Scan") {
+									bound = "BRead " + coqstr(a.t.text(c))
+								}
+							}
+							return true
+						})
+					}
+					a.row("append", x, trip, bound)
+					break
+				}
+			}
+		case *ast.SelectorExpr:
+			if id, ok := f.X.(*ast.Ident); ok && id.Name == "reflect" && f.Sel.Name == "MakeSlice" && len(x.Args) == 3 {
+				a.row("reflect.MakeSlice", x, x.Args[2], "")
+			}
+			if f.Sel.Name == "Grow" && len(x.Args) == 1 {
+				if _, lit := x.Args[0].(*ast.BasicLit); !lit {
+					a.row("Grow", x, x.Args[0], "")
+				}
+			}
+		}
+		return
+	case *ast.BlockStmt, *ast.CaseClause, *ast.SwitchStmt, *ast.ForStmt, *ast.RangeStmt, *ast.IfStmt:
+		a.outer = append(a.outer, n)
+		defer func() { a.outer = a.outer[:len(a.outer)-1] }()
+		if r, ok := n.(*ast.RangeStmt); ok {
+			o := a.origin(r.X)
+			for _, e := range []ast.Expr{r.Key, r.Value} {
+				if id, ok := e.(*ast.Ident); ok && id.Name != "_" {
+					a.org[id.Name] = o
+				}
+			}
+		}
+	}
+	// children in source order
+	var kids []ast.Node
+	ast.Inspect(n, func(c ast.Node) bool {
+		if c == n {
+			return true
+		}
+		if c != nil {
+			kids = append(kids, c)
+		}
+		return false
+	})
+	for _, c := range kids {
+		a.walk(c)
+	}
+}
+
+func genC08alloc(repo string, out *bytes.Buffer) {
+	t := &c8sites{fset: token.NewFileSet(), repo: repo, pkgs: map[string]*c8pkg{}}
+	var rows []c8arow
+	for _, dir := range c8allocDirs {
+		p := t.load(dir)
+		for _, f := range p.files {
+			fname := filepath.Base(t.fset.Position(f.Pos()).Filename)
+			if strings.HasPrefix(fname, "verif_export") {
+				continue
+			}
+			for _, d := range f.Decls {
+				fd, ok := d.(*ast.FuncDecl)
+				if !ok || fd.Body == nil {
+					continue
+				}
+				name := fd.Name.Name
+				if fd.Recv != nil {
+					name = c8recvName(fd) + "." + name
+				}
+				a := &c8alloc{t: t, fd: fd, org: map[string]int{}, src: map[string]string{}, rows: &rows, site: dir + "/" + fname + ":" + name}
+				if fd.Recv != nil {
+					for _, fl := range fd.Recv.List {
+						for _, nm := range fl.Names {
+							a.org[nm.Name] = 0
+						}
+					}
+				}
+				for _, fl := range fd.Type.Params.List {
+					for _, nm := range fl.Names {
+						a.org[nm.Name] = 1
+					}
+				}
+				if fd.Type.Results != nil {
+					for _, fl := range fd.Type.Results.List {
+						for _, nm := range fl.Names {
+							a.org[nm.Name] = 0
+						}
+					}
+				}
+				a.walk(fd.Body)
+			}
+		}
+	}
+	out.WriteString("(* ---- phase 7: allocations whose size is an expression (make, reflect.MakeSlice, Grow, append in a\n   loop), origin of the size, dominating bound test ---- *)\n")
+	out.WriteString("Definition c08_alloc_sites : list arow :=\n  [")
+	for i, r := range rows {
+		if i > 0 {
+			out.WriteString(";\n   ")
+		}
+		fmt.Fprintf(out, "mkARow %s %s\n     %s\n     %s %s (%s) %s", coqstr(r.site), coqstr(r.kind), coqstr(r.text), coqstr(r.size), r.origin, r.bound, coqstr(r.lower))
+	}
+	out.WriteString("].\n\n")
 }
